@@ -279,6 +279,11 @@ PB = obj("PB", F("y", STR, default=V("''")), bases="DPlain")
 INH_FIELDS_SRC = '@discriminator("type")\n@dataclass\nclass FBase:\n    n: int = 0\n'
 FA = obj("FA", F("n", INT, default=V("0")), F("x", INT, default=V("0")), bases="FBase")
 FB = obj("FB", F("n", INT, default=V("0")), F("y", STR, default=V("''")), bases="FBase")
+# inherited discriminator whose dataclass base carries dependent_required (a keyword every
+# dialect spells differently, on the base's own definition)
+INH_DR_SRC = '@discriminator("type")\n@dataclass\nclass QBase:\n    a: int = 0\n    b: int = 0\n    _dr = dependent_required({"a": ["b"]})\n'
+QA = obj("QA", F("a", INT, default=V("0")), F("b", INT, default=V("0")), F("x", INT, default=V("0")), bases="QBase", dependent_required=(("a", ("b",)),))
+QB = obj("QB", F("a", INT, default=V("0")), F("b", INT, default=V("0")), F("y", STR, default=V("''")), bases="QBase", dependent_required=(("a", ("b",)),))
 # three-level hierarchy under an inherited discriminator: KK is a subclass of the alternative KA
 # (alternatives in the library's order: most specific first, so KA is defined by the extra source)
 INH_DEEP_SRC = '@discriminator("type")\n@dataclass\nclass KBase:\n    n: int = 0\n@dataclass\nclass KA(KBase):\n    x: int = 0\n'
@@ -287,6 +292,9 @@ KK = obj("KK", F("n", INT, default=V("0")), F("x", INT, default=V("0")), F("age"
 OBJECTS: Dict[str, Tuple[Sp, str]] = {
     "NtField": (NTF, ""),
     "ReqOpt": (REQOPT, ""),
+    # constraints of several JSON types on an Any position: each applies to its own type only
+    "ann(any,num+str)": (ann(ANY, min=2, max_len=1), ""),
+    "AnyC": (obj("AnyC", F("v", ANY, schema=(("max", 0), ("min_items", 1))), F("w", INT, default=V("0"))), ""),
     "NtOnce": (obj("NtOnce", F("z", newtype("Nz1", INT, min=0), default=V("0"), schema=(("min", -5),))), ""),
     "ann(nt0,looser)": (ann(newtype("Nz2", INT, min=0), min=-5), ""),
     "ann(str0,looser)": (ann(newtype("Ns0", STR, max_len=0), max_len=2), ""),
@@ -554,6 +562,7 @@ UNION_EXTRA: Dict[str, Tuple[Sp, str]] = {
     "disc(inherited)": (disc("type", (("IA", "IA"), ("IB", "IB")), IA, IB, inherited="DBase"), INH_DISC_SRC),
     "disc(inherited,plain)": (disc("type", (("PA", "PA"), ("PB", "PB")), PA, PB, inherited="DPlain"), INH_PLAIN_SRC),
     "disc(inherited,fields)": (disc("type", (("FA", "FA"), ("FB", "FB")), FA, FB, inherited="FBase"), INH_FIELDS_SRC),
+    "disc(inherited,depreq)": (disc("type", (("QA", "QA"), ("QB", "QB")), QA, QB, inherited="QBase"), INH_DR_SRC),
     "disc(inherited,deep)": (disc("type", (("KK", "KK"), ("KA", "KA")), KK, KA, inherited="KBase"), INH_DEEP_SRC),
     "disc(inherited,recursive)": (
         disc("type", (("RLeaf", "RLeaf"), ("RBranch", "RBranch")),
